@@ -159,8 +159,8 @@ fn usage_str(u: &KeyUsage) -> &'static str {
     }
 }
 
-/// Stored key set of a key-object entry: (kid, usage, status, valid_from).
-pub fn key_states(e: &Entry<EntrySealed, EntryCommitted>) -> Vec<(String, &'static str, &'static str, u64)> {
+/// Stored key set of a key-object entry: (kid, usage, status, valid_from, seconds of the status change id).
+pub fn key_states(e: &Entry<EntrySealed, EntryCommitted>) -> Vec<(String, &'static str, &'static str, u64, u64)> {
     e.get_ava_set(Attribute::KeyInternalData)
         .and_then(|vs| vs.as_key_internal_map())
         .map(|m| {
@@ -175,6 +175,7 @@ pub fn key_states(e: &Entry<EntrySealed, EntryCommitted>) -> Vec<(String, &'stat
                             KeyStatus::Revoked => "revoked",
                         },
                         d.valid_from,
+                        d.status_cid.ts.as_secs(),
                     )
                 })
                 .collect()
